@@ -31,7 +31,12 @@ def gen_pragma():
     core.write_if_changed(core.GEN / "GenPragma.v", pragma.translate(core.PKG))
 
 
-ALL = [gen_share, gen_tables, gen_stats, gen_pragma]
+def gen_ops():
+    from pyt2coq import ops
+    core.write_if_changed(core.GEN / "GenOps.v", ops.translate(core.PKG))
+
+
+ALL = [gen_share, gen_tables, gen_stats, gen_pragma, gen_ops]
 
 
 def gen_all(strict=True):
